@@ -1,7 +1,8 @@
 (* Extraction of Model/Remap.v (C15).  ExtrOcamlBasic only; no Extract Constant. *)
 From Coq Require Extraction ExtrOcamlBasic.
-From Verif Require Import Base.Str Model.Remap.
+From Verif Require Import Base.Str Gen.GenRemap Model.Remap.
 Extraction Language OCaml.
 Extraction "Extract/m_remap.ml"
   Remap.matches Remap.print_out Remap.parse_out Remap.out_ok Remap.limit Remap.touches
-  Remap.try_remap Remap.remap_note Remap.replace_base Remap.wf_note Remap.split_note.
+  Remap.try_remap Remap.try_remap_scoped Remap.remap_in Remap.remap_note Remap.replace_base Remap.wf_note
+  Remap.has_base_field Remap.split_note Remap.meta_split GenRemap.remap_below_divider.
